@@ -21,4 +21,8 @@ TEXT = {
   text="Theorems on the OnDelete call log of the sequential delete path: every call is for a height of the range and happens while the header is still readable; on success the log is exactly (stored heights ascending) x (handlers in order), each pair once; a failing handler keeps its header stored and readable, the error is returned, everything below was removed, and a retry calls the handlers again. The harness logs (handler, height, readable) of every real invocation and the driver compares it with the model's log.",
   note="As C04. Handler error and panic are the same to the store (recover wrapper) and are scripted per call index. The parallel delete path (>= 10000 headers) is not modelled.",
   technique="Lean 4 proof (induction over the delete loop) + op-sequence correspondence with scripted handler faults"),
+ "C11": dict(
+  text="c11_accept_iff / c11_ignore_iff / c11_reject_iff / c11_total: the validator's verdict as a total function of (what the payload does to decoding+Validate) x (verifier outcome), proved over the whole finite table in the kernel; the real verifyMessage is executed on the same complete table (incl. panics in decode, type assertion, Validate and verifier, and the unset-verifier path) and compared; delivered value checked to be the decoded header.",
+  note="Lean kernel; hand model tied by exhaustive execution; pubsub's reaction to Accept/Ignore/Reject is go-libp2p-pubsub behaviour (not modelled).",
+  technique="Lean 4 proof (decision table, kernel case analysis) + exhaustive differential table"),
 }
